@@ -11,6 +11,7 @@ package inmem
 //vx:param opsT0 quick=2 thorough=2
 //vx:param opsT1 quick=1 thorough=2
 //vx:param writer quick=0 thorough=1
+//vx:param writerL quick=1 thorough=2
 //vx:unwind 600
 
 import (
@@ -63,6 +64,16 @@ func vxCheckEntry(e *physical.Entry, present bool, val byte, what string) {
 }
 
 func VxInmemSchedules() {
+	vxSchedules(vxParam("opsT0"), vxParam("opsT1"), vxParam("writer"))
+}
+
+// one longer transaction (three operations, so it can write a key twice and then trip over a later operation) against
+// plain writers
+func VxInmemLongTxnVsWriter() {
+	vxSchedules(3, -1, vxParam("writerL"))
+}
+
+func vxSchedules(ops0, ops1, writers int) {
 	ctx := context.Background()
 	b := vxNewBackend()
 	var spec vxKVSpec // committed state
@@ -72,8 +83,8 @@ func VxInmemSchedules() {
 		vxAssert("init put", b.Put(ctx, &physical.Entry{Key: vxKeys[0], Value: []byte{v}}) == nil)
 		spec.present[0], spec.val[0] = true, v
 	}
-	txns := [2]*vxTxn{{opsLeft: vxParam("opsT0")}, {opsLeft: vxParam("opsT1")}}
-	writerLeft := vxParam("writer")
+	txns := [2]*vxTxn{{opsLeft: ops0}, {opsLeft: ops1, done: ops1 < 0}}
+	writerLeft := writers
 	for step := 0; step < 12; step++ {
 		// actors that can still move
 		var movers []int
